@@ -1196,6 +1196,6 @@ RULES = [
     RuleDef('R11', 'coordinate and length token lexers (one probe token per dispatch branch)', r11, 2),
     RuleDef('R12', 'document level: global defaults, comments, ann/include prefixes, errors (probe documents)', r12, 8),
     RuleDef('R13', 'parsed shapes -> regions: one each, in order', r13, 1),
-    RuleDef('R14', 'grammar enumeration: all documents of <= 4 lines over an 11-line CRTF grammar against a state-machine oracle', r14, 1, tier='thorough'),
+    RuleDef('R14', 'grammar enumeration: all documents of <= 4 lines over an 11-line CRTF grammar against a state-machine oracle', r14, 1, tier='deep'),
     RuleDef('R9', 'label and text values: written quoting is what the line/metadata regexes lex; bound to the region', r9, 4),
 ]
